@@ -29,7 +29,7 @@ def main():
         sys.exit(rc)
     try:
         if not args.no_build:
-            ok = core.build_property(ctx, extra_targets=meta.get('eval_deps', ()))
+            ok = core.build_property(ctx, extra_targets=meta.get('eval_deps', ()), gen_deps=meta.get('gen_deps'))
         else:
             ok = True
         mod.run(ctx)
